@@ -59,6 +59,30 @@ def check_graph(ctx):
         ok = any(isinstance(c.func, ast.Attribute) and c.func.attr == 'add_edges_from' and c.args and
                  U(c.args[0]).replace(' ', '') in ('itertools.combinations(%s,2)' % cl,) for c in calls_in(loops[0])) and \
             not any(isinstance(n, (ast.If, ast.Continue, ast.Break)) for n in ast.walk(loops[0]))
+    if len(loops) == 1 and not ok:
+        # the complete graph on the clique through networkx: G.update(nx.complete_graph(cl)) / G.add_edges_from(nx.complete_graph(cl).edges[()]),
+        # possibly only for cliques of more than one attribute (a single attribute has no pair; it is a node already).  A cycle or a path
+        # through the attributes is the complete graph only up to three of them.
+        cl = U(loops[0].target)
+        body = loops[0].body
+        if len(body) == 1 and isinstance(body[0], ast.If) and not body[0].orelse and U(body[0].test).replace(' ', '') in ('len(%s)>1' % cl, 'len(%s)>=2' % cl, '1<len(%s)' % cl):
+            body = body[0].body
+        if len(body) == 1 and isinstance(body[0], ast.Expr) and isinstance(body[0].value, ast.Call):
+            c = body[0].value
+            t = U(c).replace(' ', '')
+            G_ = U(c.func.value) if isinstance(c.func, ast.Attribute) else None
+            full = {'%s.update(nx.complete_graph(%s))' % (G_, cl), '%s.add_edges_from(nx.complete_graph(%s).edges)' % (G_, cl),
+                    '%s.add_edges_from(nx.complete_graph(%s).edges())' % (G_, cl), '%s.update(edges=nx.complete_graph(%s).edges)' % (G_, cl)}
+            ring = ('nx.add_cycle(', 'nx.add_path(', 'nx.add_star(', 'nx.cycle_graph(', 'nx.path_graph(', 'nx.star_graph(')
+            if t in full:
+                ctx.ob('graph-from-cliques', fi, loops[0], True, 'every pair of attributes of every clique is joined by an edge: the complete graph on the clique (`%s`)' % U(c)[:60])
+                ok = None
+            elif any(r in t for r in ring):
+                ctx.ob('graph-from-cliques', fi, loops[0], False, 'the attributes of a clique are joined by `%s` - a cycle / path / star: the complete graph only up to three '
+                       'attributes; a larger clique loses its chords and is no longer contained in any node of the tree' % U(c)[:60])
+                ok = None
+    if ok is None:
+        pass
     where = loops[0] if loops else fi.node
     if not loops:
         # the same edges in one call: add_edges_from(e for cl in self.cliques for e in itertools.combinations(cl, 2))
@@ -79,7 +103,8 @@ def check_graph(ctx):
                     where = c
                     ok = alpha_text(ast.GeneratorExp(elt=a0.args[0].elt, generators=a0.args[0].generators)) == \
                         alpha_of('(itertools.combinations(cl, 2) for cl in self.cliques)')
-    ctx.ob('graph-from-cliques', fi, where, ok, 'every pair of attributes of every clique is joined by an edge (no filter)')
+    if ok is not None:
+        ctx.ob('graph-from-cliques', fi, where, ok, 'every pair of attributes of every clique is joined by an edge (no filter)')
     init = ctx.repo.nfunc(JT, 'JunctionTree.__init__')
     st = {U(s.targets[0]): U(s.value) for s in walk_shallow(init.node) if isinstance(s, ast.Assign) and len(s.targets) == 1}
     ok, why = stored_cliques(init)
